@@ -50,7 +50,9 @@ theorem mergeOne_M {c e first fs fs' name field} {m : Ty} {T : Prop} {k : String
     (hno : field.noOpt = true)
     (hf : name = k → m ∈ flattenUnion field.unionMembers → T) : Mk m T k fs' := by
   have hfield : field.stripOpt = field := stripOpt_of_noOpt hno
-  rcases mergeOne_cases h with ⟨_, h2⟩ | ⟨orig, hg, h2 | ⟨oi, ho, h2⟩ | ⟨_, h2⟩⟩
+  rcases mergeOne_cases h with ⟨_, h2⟩ | ⟨orig, hg, h2 | ⟨oi, ho, h2⟩ | ⟨_, h2⟩ | ⟨_, ⟨fi, hfi, _⟩, h2⟩⟩
+  rotate_left 4
+  · subst hfi; simp [Ty.noOpt] at hno
   · subst h2
     intro kv hkv hk hm
     rcases Fields.mem_set hkv with h3 | h3
@@ -211,7 +213,9 @@ theorem mergeFieldSets_pred {Q : Ty → Prop} {c : LitCfg}
       rcases Fields.mem_set hkv with h1 | h1
       · subst h1; exact hv
       · exact hfs kv h1
-    rcases mergeOne_cases h with ⟨_, h2⟩ | ⟨orig, hg, h2 | ⟨oi, ho, h2⟩ | ⟨_, h2⟩⟩
+    rcases mergeOne_cases h with ⟨_, h2⟩ | ⟨orig, hg, h2 | ⟨oi, ho, h2⟩ | ⟨_, h2⟩ | ⟨_, _, h2⟩⟩
+    rotate_left 4
+    · subst h2; exact hset _ hf
     · subst h2
       apply hset
       cases hfo : field.isOpt
